@@ -606,6 +606,165 @@ def target_names(t):
     return ",".join(n.id for n in ast.walk(t) if isinstance(n, ast.Name))
 
 
+# ------------------------------------------------------------------------------------------------ util.val_from_meta
+def translate_val_from_meta(fd, path_date_fmt_ok):
+    """the dispatch of util.val_from_meta: which conversion for which pandas / numpy type, in which order, and what the
+    `except ValueError` handler does.  The conversions themselves are parameters (numpy / pandas):
+        np_scalar numpy_type x        np.dtype(numpy_type).type(x)
+        py_timestamp_tz x             pd.Timestamp(x) put into the zone of the metadata
+        py_to_datetime_fmt x          pd.to_datetime(x, format=PATH_DATE_FMT)"""
+    stmts = [x for x in fd.body if not (isinstance(x, ast.Expr) and isinstance(x.value, ast.Constant))]
+    if not (len(stmts) == 1 and isinstance(stmts[0], ast.Try) and len(stmts[0].handlers) == 1 and not stmts[0].orelse and not stmts[0].finalbody
+            and stmts[0].handlers[0].type is not None and ast.unparse(stmts[0].handlers[0].type) == "ValueError"):
+        _bad(fd, "val_from_meta is not one try / except ValueError")
+    tr = stmts[0]
+
+    def meta_field(e):
+        """meta['pandas_type'] / meta['numpy_type'] -> Gallina name"""
+        for k in ("pandas_type", "numpy_type"):
+            if same_expr(e, "meta['%s']" % k):
+                return k
+        return None
+
+    def cond(test, t_bound):
+        if not (isinstance(test, ast.Compare) and len(test.ops) == 1 and isinstance(test.ops[0], ast.Eq)
+                and isinstance(test.comparators[0], ast.Constant) and isinstance(test.comparators[0].value, str)):
+            _bad(test, "condition of val_from_meta")
+        c = str_const(test.comparators[0].value, test)
+        k = meta_field(test.left)
+        if k is not None:
+            return "str_eqb %s %s" % (k, c)
+        if t_bound and same_expr(test.left, "t"):      # t = np.dtype(meta['numpy_type']); t == "name": the dtype of that name
+            return "str_eqb numpy_type %s" % c
+        _bad(test, "condition of val_from_meta")
+
+    branches, t_bound, final = [], False, None
+    for x in tr.body:
+        if final is not None:
+            _bad(x, "statement after the final return of val_from_meta")
+        if isinstance(x, ast.Assign) and same_expr(x.value, "np.dtype(meta['numpy_type'])") and target_names(x.targets[0]) == "t":
+            t_bound = True
+        elif isinstance(x, ast.If) and not x.orelse:
+            c = cond(x.test, t_bound)
+            body = [b for b in x.body]
+            src = [ast.unparse(b) for b in body]
+            if len(body) == 2 and same_expr(body[0].value, "(meta.get('metadata') or {}).get('labels')") and target_names(body[0].targets[0]) == "labels" \
+                    and isinstance(body[1], ast.Return) and same_expr(body[1].value, "val_from_meta(x, labels) if labels else x"):
+                br = "match labels with Some l => gen_val_from_meta x l | None => Ok (VStr x) end"
+            elif len(body) == 3 and src[0] == "ts = pd.Timestamp(x)" and src[1] == "tz = (meta.get('metadata') or {}).get('timezone', 'UTC')" \
+                    and src[2] == "return ts.tz_convert(tz) if ts.tzinfo is not None else ts.tz_localize(tz)":
+                br = "py_timestamp_tz x"
+            elif len(body) == 1 and isinstance(body[0], ast.Return) and isinstance(body[0].value, ast.Compare) and len(body[0].value.ops) == 1 \
+                    and isinstance(body[0].value.ops[0], ast.In) and same_expr(body[0].value.left, "x") and isinstance(body[0].value.comparators[0], ast.List):
+                texts = []
+                for e in body[0].value.comparators[0].elts:
+                    if not isinstance(e, ast.Constant) or not isinstance(e.value, (str, bool, int)):
+                        _bad(e, "member of the bool literal list")
+                    if isinstance(e.value, str):      # x is a text: True == 1 == "1" is false for a str
+                        texts.append(str_const(e.value, e))
+                br = "Ok (VBool (mem_str x gen_bool_true_texts))"      # the list itself is the unit `booltexts`
+            else:
+                _bad(x, "branch of val_from_meta")
+            branches.append((c, br))
+        elif isinstance(x, ast.Return) and t_bound and same_expr(x.value, "np.dtype(t).type(x)"):
+            final = "np_scalar numpy_type x"
+        else:
+            _bad(x, "statement of val_from_meta")
+    if final is None:
+        _bad(fd, "val_from_meta does not end in np.dtype(t).type(x)")
+    h = tr.handlers[0].body
+    if not (len(h) == 1 and isinstance(h[0], ast.If) and len(h[0].body) == 1 and len(h[0].orelse) == 1 and isinstance(h[0].orelse[0], ast.Raise)
+            and h[0].orelse[0].exc is None and isinstance(h[0].body[0], ast.Return)
+            and same_expr(h[0].body[0].value, "pd.to_datetime(x, format=PATH_DATE_FMT)") and path_date_fmt_ok):
+        _bad(tr.handlers[0], "handler of val_from_meta")
+    hc = cond(h[0].test, False)
+    chain = final
+    for c, br in reversed(branches):
+        chain = "if %s then %s\n      else %s" % (c, br, chain)
+    return ("  (* util.val_from_meta, line %d: the dispatch; np_scalar / py_timestamp_tz / py_to_datetime_fmt are numpy's and pandas' conversions *)\n"
+            "  Section GenMeta.\n"
+            "  Variable np_scalar : str -> str -> res value.\n  Variable py_timestamp_tz : str -> res value.\n  Variable py_to_datetime_fmt : str -> res value.\n"
+            "  Fixpoint gen_val_from_meta (x : str) (meta : pmeta) : res value :=\n"
+            "    match meta with PMeta pandas_type numpy_type labels =>\n"
+            "    py_except_ValueError\n      (%s)\n      (if %s then py_to_datetime_fmt x else VErr)\n    end.\n  End GenMeta.\n\n" % (fd.lineno, chain, hc))
+
+
+# ------------------------------------------------------------------------------------------------ core.read_row_group
+def translate_row_fill(fd):
+    """the partition-column fill at the end of core.read_row_group: directory of the row group -> (key, val) of column `cat` ->
+    the code cats[cat].index(val)"""
+    loop = None
+    for x in fd.body:
+        if isinstance(x, ast.For) and same_expr(x.iter, "cats") and target_names(x.target) == "cat":
+            loop = x
+    if loop is None or loop.orelse:
+        _bad(fd, "`for cat in cats:` not found in read_row_group")
+    body = list(loop.body)
+    if body and isinstance(body[0], ast.If) and same_expr(body[0].test, "cat not in assign") and len(body[0].body) == 1 \
+            and isinstance(body[0].body[0], ast.Continue) and not body[0].orelse:
+        body = body[1:]            # a partition column that was not asked for
+    if len(body) != 4:
+        _bad(loop, "body of the partition-column loop")
+    sel, unp, conv, fill = body
+
+    class FnRow(Fn):
+        def E(self, e, env):
+            if same_expr(e, "rg.columns[0].file_path"):
+                return "file_path", "str"
+            if isinstance(e, ast.Tuple) and len(e.elts) == 2:      # a pair is a sequence of two
+                a, ta = self.E(e.elts[0], env)
+                b, tb = self.E(e.elts[1], env)
+                if ta != "str" or tb != "str":
+                    _bad(e, "tuple of %s, %s" % (ta, tb))
+                return "[%s; %s]" % (a, b), "list str"
+            if isinstance(e, ast.BinOp) and isinstance(e.op, ast.Mod) and isinstance(e.left, ast.Constant) and e.left.value == "dir%i" \
+                    and isinstance(e.right, ast.Name) and env.get(e.right.id) == "nat":
+                return "(%s ++ show_nat %s)" % (str_const("dir", e), ident(e.right.id)), "str"
+            return Fn.E(self, e, env)
+
+        def call(self, e, env):
+            if isinstance(e.func, ast.Name) and e.func.id == "enumerate" and len(e.args) == 1 and not e.keywords:
+                a, ta = self.E(e.args[0], env)
+                return "(py_enumerate %s)" % a, "list (nat * %s)" % elem_type(ta, e)
+            return Fn.call(self, e, env)
+    f = FnRow("read_row_group", {})
+    if not (isinstance(sel, ast.If) and same_expr(sel.test, "scheme == 'hive'") and len(sel.body) == 1 and len(sel.orelse) == 1
+            and all(isinstance(b, ast.Assign) and target_names(b.targets[0]) == "partitions" for b in (sel.body[0], sel.orelse[0]))):
+        _bad(sel, "selection of the partitions by scheme")
+    hv, th = f.E(sel.body[0].value, {})
+    dr, td = f.E(sel.orelse[0].value, {})
+    if th != "list (list str)" or td != "list (list str)":
+        _bad(sel, "partitions of type %s / %s" % (th, td))
+    # key, val = [p for p in partitions if p[0] == cat][0]
+    if not (isinstance(unp, ast.Assign) and target_names(unp.targets[0]) == "key,val" and same_expr(unp.value, "[p for p in partitions if p[0] == cat][0]")):
+        _bad(unp, "selection of the column's (key, val)")
+    # if not all(isinstance(label, str) for label in cats[cat]): val = val_to_num(val, meta=partition_meta.get(key))
+    if not (isinstance(conv, ast.If) and same_expr(conv.test, "not all(isinstance(label, str) for label in cats[cat])") and not conv.orelse
+            and len(conv.body) == 1 and ast.unparse(conv.body[0]) == "val = val_to_num(val, meta=partition_meta.get(key))"):
+        _bad(conv, "conversion of the directory value")
+    if ast.unparse(fill) != "assign[cat][:] = cats[cat].index(val)":
+        _bad(fill, "fill of the partition column")
+    return ("  (* core.read_row_group, line %d: the partition columns of a row group.  labels = cats[cat]; veqb_ is Python's == under list.index;\n"
+            "     val_to_num_ stands for util.val_to_num; None = an exception (IndexError, ValueError of the unpack / of list.index, conversion error) *)\n"
+            "  Definition gen_row_partitions (hive : bool) (file_path : str) : list (list str) :=\n"
+            "  if hive then %s\n  else %s.\n\n"
+            "  Section GenRow.\n"
+            "  Variable val_to_num_ : option kind -> str -> res value.\n  Variable veqb_ : value -> value -> bool.\n"
+            "  Definition gen_row_value (hive : bool) (partition_meta : list (str * kind)) (cat : str) (labels : list value) (file_path : str) : option value :=\n"
+            "  match filter (fun p => match p with p0 :: _ => str_eqb p0 cat | [] => false end) (gen_row_partitions hive file_path) with\n"
+            "  | p :: _ => match pair_of p with\n"
+            "              | Some (key, val) => if negb (forallb (is_vstr F T D) labels) then opt_of_res (val_to_num_ (alist_get key partition_meta) val)\n"
+            "                                   else Some (VStr val)\n"
+            "              | None => None\n              end\n"
+            "  | [] => None\n  end.\n"
+            "  (* assign[cat][:] = cats[cat].index(val): the code; the frame shows labels[code] *)\n"
+            "  Definition gen_row_cell (hive : bool) (partition_meta : list (str * kind)) (file_path : str) (c : str * list value) : option (str * value) :=\n"
+            "  match gen_row_value hive partition_meta (fst c) (snd c) file_path with\n"
+            "  | Some v => match index_of veqb_ v (snd c) with\n"
+            "              | Some i => option_map (pair (fst c)) (nth_error (snd c) i)\n              | None => None\n              end\n"
+            "  | None => None\n  end.\n  End GenRow.\n\n" % (loop.lineno, hv, dr))
+
+
 # ------------------------------------------------------------------------------------------------ api._path_to_cats
 def translate_path_to_cats(fd):
     """-> Gallina text (inside Section GenValues) for api._path_to_cats"""
@@ -976,8 +1135,19 @@ def translate_units(util_src, writer_src, api_src=None, core_src=None):
 
         return "".join(out)
 
+    def u_valfrommeta():
+        fmt = any(isinstance(n, ast.Assign) and len(n.targets) == 1 and isinstance(n.targets[0], ast.Name) and n.targets[0].id == "PATH_DATE_FMT"
+                  and isinstance(n.value, ast.Constant) and isinstance(n.value.value, str) for n in ut.body)
+        fd = find_def(ut, "val_from_meta")
+        params(fd, ["x", "meta"])
+        return translate_val_from_meta(fd, fmt)
+
+    def u_rowfill():
+        return translate_row_fill(find_def(ct, "read_row_group"))
+
     top = [("analyse", u_analyse, []), ("strip", u_strip, []), ("booltexts", u_booltexts, []), ("fastrel", u_fastrel, [])]
-    sec = [("pathstring", u_pathstring, []), ("valtonum", u_valtonum, []), ("naming", u_naming, ["pathstring"]), ("cats", u_cats, [])]
+    sec = [("pathstring", u_pathstring, []), ("valtonum", u_valtonum, []), ("naming", u_naming, ["pathstring"]), ("cats", u_cats, []),
+           ("valfrommeta", u_valfrommeta, ["booltexts"]), ("rowfill", u_rowfill, [])]
     text, ok, failed = [HEADER], [], {}
 
     def run(units):
